@@ -712,6 +712,26 @@ func c13i(c *Ctx) {
 			var reads []*ast.CallExpr
 			ast.Inspect(loop.Body, func(y ast.Node) bool {
 				if call, ok := y.(*ast.CallExpr); ok {
+					if matchCallee(info, call, Callee{"io", "", "ReadFull"}, Callee{"io", "", "ReadAtLeast"}) && len(call.Args) >= 2 {
+						// a fill-the-buffer read: the last, short chunk is reported as
+						// io.ErrUnexpectedEOF, which must be handled like EOF
+						n++
+						c.touch(f)
+						mentions := false
+						ast.Inspect(loop.Body, func(z ast.Node) bool {
+							if se, ok := z.(*ast.SelectorExpr); ok && se.Sel.Name == "ErrUnexpectedEOF" {
+								mentions = true
+							}
+							return true
+						})
+						if mentions {
+							c.OK(f.Name+" read loop short chunk", "io.ErrUnexpectedEOF handled", []string{f.Pos(call)})
+						} else {
+							c.Bad(f.Name+" read loop short chunk", f.Pos(call), "the loop reads with "+exprString(call.Fun)+" but treats io.ErrUnexpectedEOF (a final chunk shorter than the buffer) as an error: identical content longer than one buffer and not a multiple of it would be reported as different")
+						}
+						reads = append(reads, &ast.CallExpr{Fun: call.Fun, Args: []ast.Expr{call.Args[1]}, Lparen: call.Lparen, Rparen: call.Rparen})
+						return true
+					}
 					if fn, ok := calleeObj(info, call).(*types.Func); ok && fn.Name() == "Read" && len(call.Args) == 1 {
 						if tv, ok := info.Types[call.Args[0]]; ok {
 							if sl, ok := tv.Type.Underlying().(*types.Slice); ok {
